@@ -186,3 +186,54 @@ fn short_histories(ticks: u64) -> Vec<Vec<u8>> {
     }}
     assert!(evaluations > 100_000);
 }
+
+// ---- the code's own expiry filter and window IRIs that are prefixes of one another ---------------------------------
+// Windows <http://w/> (width 2) and <http://w/b/> (width 4): the second IRI extends the first, so annotating and stripping the
+// window prefix must pick the right one.  The SDS handed over holds EVERY arrival up to `now` (expired ones too): the
+// translation's own filter (alive iff event_time + alpha > now) must agree with the window semantics computed here.
+const A2: &str = "http://w/";
+const B2: &str = "http://w/b/";
+fn sds2_at(h: &[u8], now: u64, only_alive: bool) -> Sds {
+    let mut sds = Sds::new();
+    let mut a = Vec::new();
+    let mut b = Vec::new();
+    for t in 0..=now {
+        if (t as usize) < h.len() {
+            if h[t as usize] & 1 != 0 && (!only_alive || t + ALPHA_A > now) { a.push(wt(t)); }
+            if h[t as usize] & 2 != 0 && (!only_alive || t + ALPHA_B > now) { b.push(wt(t)); }
+        }
+    }
+    sds.windows.insert(A2.to_string(), WindowData { alpha: ALPHA_A, triples: a });
+    sds.windows.insert(B2.to_string(), WindowData { alpha: ALPHA_B, triples: b });
+    sds.output_iris.insert(OUT.to_string());
+    sds
+}
+const RULESETS2: [(&str, &str); 2] = [
+    ("copy-both", "@prefix wa: <http://w/> .\n@prefix wb: <http://w/b/> .\n@prefix wo: <http://out/> .\n{ ?s wa:p ?o } => { ?s wo:fromA ?o }\n{ ?s wb:p ?o } => { ?s wo:fromB ?o }\n{ ?s wa:p ?o . ?s wb:p ?o } => { ?s wo:both ?o }\n"),
+    ("into-the-longer-window", "@prefix wa: <http://w/> .\n@prefix wb: <http://w/b/> .\n@prefix wo: <http://out/> .\n{ ?s wa:p ?o } => { ?s wb:q ?o }\n{ ?s wb:q ?o } => { ?s wo:r ?o }\n{ ?s wb:p ?o } => { ?s wa:q ?o }\n"),
+];
+#[test] fn w__sds__expiry_filter_and_prefix_window_iris() {
+    let widths: HashMap<String, u64> = [(A2.to_string(), ALPHA_A), (B2.to_string(), ALPHA_B)].into();
+    for (name, n3) in RULESETS2 {
+        let dict = Arc::new(RwLock::new(Dictionary::new()));
+        let mut reasoner = Reasoner::new();
+        reasoner.dictionary = Arc::clone(&dict);
+        let (rules, _ctx) = parse_n3_rules_for_sds(n3, &mut reasoner, widths.clone()).expect("rules parse");
+        for h in short_histories(4) {
+            let mut state: SdsWithExpiry = HashMap::new();
+            for now in 0..4 + ALPHA_B + 1 {
+                let all = sds2_at(&h, now, false);
+                let alive = sds2_at(&h, now, true);
+                let comps = all_component_iris(&all);
+                let want = decode_view(&naive_sds_plus(&rules, &alive, &dict, now), &dict);
+                let naive_all = decode_view(&naive_sds_plus(&rules, &all, &dict, now), &dict);
+                assert!(naive_all == want, "rules {}: history {:?}, evaluation time {}: from-scratch reasoning over the windows' full arrival lists gives {:?}, over their alive content (event_time + width > now) {:?}", name, h, now, naive_all, want);
+                state = incremental_sds_plus(&rules, &all, &state, &dict, now);
+                let incr = decode_view(&sds_with_expiry_to_external(&state, &dict, &comps), &dict);
+                assert!(incr == want, "rules {}: history {:?}, evaluation time {}: incremental materialisation {:?} differs from from-scratch reasoning over the alive window content {:?}", name, h, now, incr, want);
+                // every reported fact sits in a component that exists
+                for comp in incr.keys() { assert!(comps.contains(comp), "rules {}: fact reported under unknown component {:?}", name, comp); }
+            }
+        }
+    }
+}
